@@ -31,7 +31,8 @@ func init() {
 
 // c42Seqs returns the argument lists used for Independents on n commits: every
 // sequence of 1..3 distinct commits (argument order matters to go-git because
-// ties in the date sort keep input order), the full set when n>3, and the
+// ties in the date sort keep input order), the full set when n>3 (every
+// argument order at n=4, with and without one duplicate), and the
 // duplicate-carrying lists [a a] and [a b a].
 func c42Seqs(n int) [][]int {
 	var out [][]int
@@ -54,7 +55,15 @@ func c42Seqs(n int) [][]int {
 			}
 		}
 	}
-	if n > 3 {
+	if n == 4 {
+		// every argument order of the full set, and the full set with one duplicate
+		for _, p := range fw.Perms(n) {
+			out = append(out, append([]int{}, p...))
+		}
+		for a := 0; a < n; a++ {
+			out = append(out, []int{0, 1, 2, 3, a}, []int{a, 3, 2, 1, 0})
+		}
+	} else if n > 4 {
 		all := make([]int, n)
 		rev := make([]int, n)
 		for i := range all {
@@ -91,6 +100,9 @@ func c42Shallows(n int, pairs bool) []uint32 {
 	return out
 }
 
+// c42MissingID is a commit id that is in no store.
+const c42MissingID = "eeeeeeeeeeeeeeeeeeeeeeeeeeeeeeeeeeeeeeee"
+
 func c42Union(in *eInst, xs ...int) uint32 {
 	var m uint32
 	for _, x := range xs {
@@ -119,7 +131,7 @@ func runC42(c *fw.Ctx) {
 	c.Bound("timestamp_orders", "all weak orders of n committer timestamps (author order reversed)")
 	c.Bound("space", space.Sizes())
 	c.Bound("conformance_max_commits", map[string]int{"literal git merge-base commands": litN, "batched git rev-parse A...B": batchN})
-	c.Bound("queries", "IsAncestor & MergeBase: all ordered pairs; Independents: all sequences of 1..3 distinct commits + full set + duplicate-carrying lists; isFastForward: all ordered pairs x shallow sets {none, every single commit, every pair (n<=4)}")
+	c.Bound("queries", "IsAncestor & MergeBase: all ordered pairs; Independents: all sequences of 1..3 distinct commits + full set + duplicate-carrying lists; isFastForward: all ordered pairs x shallow sets {none, every single commit, every pair (n<=4)}, and the shallow list naming only a commit absent from the store (every n) or a single shallow commit plus the absent one, before or after it (n<=3); Independents at n=4 additionally every argument order of the full set and the full set plus one duplicate")
 	c.SetRule("every DAG x weak order up to the bound; go-git Commit.IsAncestor / MergeBase / object.Independents / isFastForward on a memory store holding the raw commits, against a bit-mask reachability model; the model is replayed against real `git merge-base --is-ancestor/--all/--independent` (and GIT_SHALLOW_FILE for shallow variants) on the complete space up to conformance_max_commits; a case is non-trivial when its arguments are distinct commits; distinct counts (operation, answer shape, timestamp shape mono/tie/inv, shallow situation) classes")
 	c.Assume("git 2.39.5 merge-base is the reference; a shallow repository is modelled as git does (parents of shallow commits cut); only the memory storage backend is driven (the algorithms are storage-independent)")
 
@@ -269,13 +281,19 @@ func c42Conformance(c *fw.Ctx, litN, batchN int, maxPar func(int) int) {
 			add(&c42Query{kind: 'I', args: ids(in, set), expSet: ids(in, eIndependent(in.anc, set)), inst: in.String()})
 		}
 		for _, sh := range c42Shallows(n, false) {
-			if sh == 0 {
-				continue
-			}
-			anc := eAncMasks(in.Parents, sh)
-			for a := 0; a < n; a++ {
-				for b := a + 1; b < n; b++ {
-					add(&c42Query{kind: 'S', shallow: ids(in, sh), args: []string{in.ID[a], in.ID[b]}, expBool: anc[b]&(1<<a) != 0, inst: in.String()})
+			for _, absent := range []bool{false, true} {
+				if sh == 0 && !absent {
+					continue
+				}
+				anc := eAncMasks(in.Parents, sh)
+				shl := ids(in, sh)
+				if absent {
+					shl = append(shl, c42MissingID) // git: a shallow entry for an absent commit changes nothing
+				}
+				for a := 0; a < n; a++ {
+					for b := a + 1; b < n; b++ {
+						add(&c42Query{kind: 'S', shallow: shl, args: []string{in.ID[a], in.ID[b]}, expBool: anc[b]&(1<<a) != 0, inst: in.String()})
+					}
 				}
 			}
 		}
@@ -489,15 +507,36 @@ func c42Instance(c *fw.Ctx, in *eInst, idx int, fails *eFailSet) {
 		}
 	}
 
-	// fast-forward test, with shallow variants
+	// fast-forward test, with shallow variants; the shallow list may also name
+	// a commit that is not in the store (first or last in the list): no effect
+	type shv struct {
+		sh      uint32
+		missing int // 0 none, 1 first, 2 last
+	}
+	var shvs []shv
 	for _, sh := range c42Shallows(n, n <= 4) {
+		shvs = append(shvs, shv{sh, 0})
+		if sh == 0 {
+			shvs = append(shvs, shv{sh, 1})
+		} else if sh&(sh-1) == 0 && n <= 3 { // a single shallow commit
+			shvs = append(shvs, shv{sh, 1}, shv{sh, 2})
+		}
+	}
+	for _, v := range shvs {
+		sh := v.sh
 		anc := in.anc
 		var shallows []plumbing.Hash
+		if v.missing == 1 {
+			shallows = append(shallows, plumbing.NewHash(c42MissingID))
+		}
 		if sh != 0 {
 			anc = eAncMasks(in.Parents, sh)
 			for _, i := range eBits(sh) {
 				shallows = append(shallows, in.H[i])
 			}
+		}
+		if v.missing == 2 {
+			shallows = append(shallows, plumbing.NewHash(c42MissingID))
 		}
 		for old := 0; old < n; old++ {
 			for nw := 0; nw < n; nw++ {
@@ -515,8 +554,11 @@ func c42Instance(c *fw.Ctx, in *eInst, idx int, fails *eFailSet) {
 						sit = "shallow-not-reached"
 					}
 				}
-				q := fmt.Sprintf("isFastForward(old=%d,new=%d,shallow=%v)", old, nw, eBits(sh))
-				r := rep("isFastForward", map[string]any{"old": old, "new": nw, "shallow": eBits(sh)}, got, want)
+				if v.missing != 0 {
+					sit += "+absent-shallow-entry"
+				}
+				q := fmt.Sprintf("isFastForward(old=%d,new=%d,shallow=%v,absent=%d)", old, nw, eBits(sh), v.missing)
+				r := rep("isFastForward", map[string]any{"old": old, "new": nw, "shallow": eBits(sh), "shallow_list_also_names_an_absent_commit": []string{"no", "first", "last"}[v.missing]}, got, want)
 				switch {
 				case pan != "":
 					fails.Add("isFastForward: panic", idx, q, pan, r)
